@@ -620,6 +620,10 @@ def run(ctx):
     if not quick:
         small += [a + b + c for a in ALPHA[:40] for b in ALPHA[:40] for c in ALPHA[:40]]
     others += small
+    # names made of characters Python calls white space but CSS calls name characters (U+00A0, U+2003, U+3000, U+0085)
+    for w in ('\u00a0', '\u3000', '\u2003', '\u0085', '\u00a0\u00a0', 'a\u00a0', '\u00a0a'):
+        for tmpl in ('%s', ':not(%s)', 'a %s b', 'a > %s', '.%s', '#%s', 'a[%s=b]', 'a[b=%s]', 'a:lang(%s)', '%s|a', 'a::%s', '%s + %s', ':not(.%s):link'):
+            others.append(tmpl.replace('%s', w))
     # two simple selectors inside one negation, with and without something between them
     for a in ('b', '.x', '#i', '[x]', ':hover', '*', '|b', '*|b'):
         for sep in (' ', '/**/', ' /**/ ', '\t'):
